@@ -601,6 +601,20 @@ class _SetOperation(Selectable, Term):  # type:ignore[misc]
             (SetOperation.minus, other)  # type:ignore[list-item]
         ]
 
+    @builder
+    def replace_table(  # type:ignore[return,override]
+        self, current_table: "Table" | None, new_table: "Table" | None
+    ) -> "Self":
+        self.base_query = self.base_query.replace_table(current_table, new_table)
+        self._set_operation = [
+            (operation, query.replace_table(current_table, new_table))
+            for operation, query in self._set_operation
+        ]
+        self._orderbys = [
+            (field.replace_table(current_table, new_table), order)
+            for field, order in self._orderbys
+        ]
+
     def __add__(self, other: Selectable) -> "Self":  # type:ignore[override]
         return self.union(other)
 
